@@ -1006,6 +1006,11 @@ def run_unit(unit, tier, seed, acc):
                         rn_.hyperlink.address = "http://to-be-blanked.example/%d" % i
                     if i % 4 == 2 and len(run.prs.slides):  # a notes slide with text, so that the stripped-reference pre-state applies
                         run.prs.slides[0].notes_slide.notes_text_frame.text = "notes of generated deck %d" % i
+                    if i % 5 == 3:
+                        from props import c11
+
+                        if c11.respell_numbers(run.prs, env.rng("C12n", seed, i)):  # zero-padded numbers, 5pt, 50%: a reader must not 'tidy' them
+                            acc.count("generated_decks_with_numbers_in_other_lexical_forms")
                     if i % 5 == 2 and foreign_guides(run.prs, env.rng("C12g", seed, i)):
                         acc.count("generated_decks_with_foreign_adjustment_guides")
                     if i % 4 == 3 and partial_xfrms(run.prs, env.rng("C12x", seed, i)):
